@@ -78,6 +78,7 @@ func init() {
 				probe("poptq", "optional-query", gen.ROptionalQuery, gen.FQuery),
 				probe("pnoslash", "path-without-leading-slash", gen.RPathNoSlash),
 				probe("pnoslashbase", "path-without-leading-slash+base", gen.RPathNoSlash, gen.FBasePath),
+				probe("ppathdigit", "path-variable-named-x_2", gen.RPathVarDigit, gen.FPathVars),
 				probe("pduphdr", "same-header-on-two-methods", gen.RDupMethodHeader),
 				probe("psamemeth", "same-method-name-in-two-services", gen.RSameMethodName),
 			}
@@ -105,6 +106,66 @@ func init() {
 		rule: "plans = 2-10 Go-client calls over all routes of a multi-service world (shared or separate http.Client, client default headers, per-call options with distinct marker values, valid / missing / invalid required headers, scripted handler results or register-per-key store operations), released concurrently or sequentially and interleaved by the drawn schedule at I/O points and at the access probes inserted into the generated code; each call is re-executed alone in a fresh instance and compared (outcome, request line + headers on the wire, handler-visible request); accesses are checked by the vector-clock race detector; store histories by porcupine; distinct_nontrivial counts distinct (world, rpc, outcome kind, #calls, sequential?) tuples compared with a solo run plus linearizable histories by (world, #ops)",
 		technique: "deterministic simulation: seeded interleavings at I/O and inserted yield points, solo-run isolation oracle, vector-clock happens-before race detection, porcupine linearizability of the call history",
 		stubs: []string{"sync.Once / sync.Mutex in generated code replaced by simulator-aware equivalents (scratch copy only)"},
+	}
+	props["C02"] = &propCfg{
+		id: "C02", level: "exploration", design: "DESIGN.md §4 C02", modes: []string{"binding"},
+		quick: tierCfg{worlds: 10, batchSize: 16, checks: 200, timeoutS: 240},
+		thor:  tierCfg{worlds: 80, batchSize: 40, checks: 1000, timeoutS: 1800},
+		genCfg: func(seed uint64, name string) gen.Config {
+			return gen.Config{Seed: seed, Name: name, Allow: safeAllow(), Force: []string{gen.FPathVars, gen.FQuery, gen.FQueryOnBody}}
+		},
+		rule: "plans = 1-2 raw contract-client requests on RPCs with path variables and/or query parameters: verb x body {absent, empty, {}, object omitting the URL-bound fields, object with other fields} x codec {JSON, protobuf} x URL values {valid boundary values, unconvertible value on one field, required query parameter left out}, delivered fragmented and delayed; oracle = handler-visible message equals URL-bound fields from the URL + body fields, or 400 naming the field and no dispatch; distinct_nontrivial counts distinct (world, rpc, server, codec, body kind, outcome, field shape) tuples",
+		technique: "deterministic simulation: contract client emitting raw requests over the simulated link, reference binding model as oracle",
+	}
+	props["C09"] = &propCfg{
+		id: "C09", level: "exploration", design: "DESIGN.md §4 C09", modes: []string{"headers"},
+		quick: tierCfg{worlds: 10, batchSize: 16, checks: 200, timeoutS: 240},
+		thor:  tierCfg{worlds: 80, batchSize: 40, checks: 1000, timeoutS: 1800},
+		genCfg: func(seed uint64, name string) gen.Config {
+			return gen.Config{Seed: seed, Name: name, Allow: safeAllow(), Force: []string{gen.FHeadersSvc, gen.FHeadersMeth}}
+		},
+		probes: func() []*spec.World {
+			return []*spec.World{probe("poptoverride", "optional-method-header-overrides-required-service-header", gen.ROptionalOverride, gen.FHeadersSvc, gen.FHeaderOverride)}
+		},
+		rule: "plans = 1-2 raw requests with explicit header lines: per declared header (service x method merge, case variants) a state in {valid canonical, absent, empty, unambiguously invalid for its type/format}; the body (valid, garbage or 5 KB) is delivered after the header block in small delayed chunks and its reader is instrumented; oracle = reference header model: 400 with exactly one violation per offending required header, no dispatch and zero body reads before the status was committed, or never rejected for headers; distinct_nontrivial counts distinct (world, rpc, server, outcome, per-header (type/format, required, state)) tuples",
+		technique: "deterministic simulation: contract client with raw header sets, delayed instrumented body stream, reference header model as oracle",
+	}
+	props["C10"] = &propCfg{
+		id: "C10", level: "exploration", design: "DESIGN.md §4 C10", modes: []string{"errors"},
+		quick: tierCfg{worlds: 10, batchSize: 16, checks: 200, timeoutS: 240},
+		thor:  tierCfg{worlds: 80, batchSize: 40, checks: 1000, timeoutS: 1800},
+		genCfg: func(seed uint64, name string) gen.Config {
+			return gen.Config{Seed: seed, Name: name, Allow: safeAllow(), Force: []string{gen.FCustomError, gen.FRules, gen.FNested}}
+		},
+		rule: "plans = 1-3 calls (generated Go client or raw contract client) each with one error source {missing required header, unconvertible URL value, malformed body, rule violation with nested/repeated paths, plain error, sebuf Error, ValidationError from the handler, custom *Error message, wrapped custom error} x codec {JSON, protobuf} x scripted error hook {none, returns nil, returns message, sets status, sets headers, writes body}; oracle = documented table (status, content type mirrors the request, body decodes to the expected message, hook overrides) and client-side error value; distinct_nontrivial counts distinct (world, source, codec, hook behaviour, client, status) tuples",
+		technique: "deterministic simulation: scripted app-handler and error-hook nodes, Go and contract clients as observers, documented error table as oracle",
+	}
+	props["C20"] = &propCfg{
+		id: "C20", level: "exploration", design: "DESIGN.md §4 C20", modes: []string{"mock"}, passes: []string{"rand"}, mock: true,
+		quick: tierCfg{worlds: 10, batchSize: 16, checks: 150, timeoutS: 240},
+		thor:  tierCfg{worlds: 80, batchSize: 40, checks: 800, timeoutS: 1800},
+		genCfg: func(seed uint64, name string) gen.Config {
+			a := safeAllow(gen.FExamples)
+			delete(a, gen.FRecursive)
+			delete(a, gen.FTimestamp)
+			return gen.Config{Seed: seed, Name: name, Allow: a, Force: []string{gen.FExamples}, Mock: true, MockSafe: true}
+		},
+		probes: func() []*spec.World {
+			return []*spec.World{
+				mockProbe("pmockint32", "mock-int32-field", &spec.Field{Name: "count", Number: 1, Kind: "int32"}),
+				mockProbe("pmockfloat", "mock-float-field", &spec.Field{Name: "ratio", Number: 1, Kind: "float"}),
+				mockProbe("pmockrepstr", "mock-repeated-string", &spec.Field{Name: "tags", Number: 1, Kind: "string", Card: "repeated"}),
+				mockProbe("pmockoptstr", "mock-optional-string", &spec.Field{Name: "nick", Number: 1, Kind: "string", Card: "optional"}),
+				mockProbe("pmockoneof", "mock-oneof-string", &spec.Field{Name: "choice_a", Number: 1, Kind: "string", Oneof: "choice"}, &spec.Field{Name: "choice_b", Number: 2, Kind: "int64", Oneof: "choice"}),
+				mockProbe("pmockts", "mock-timestamp", &spec.Field{Name: "at", Number: 1, Kind: "message", TypeName: ".google.protobuf.Timestamp"}),
+				mockProbe("pmockenummap", "mock-map-of-enum", &spec.Field{Name: "by_key", Number: 1, Kind: "enum", TypeName: ".pmockenummap.v1.Color", Card: "map", MapKey: "string"}),
+				mockProbe("pmockrec", "mock-recursive-message", &spec.Field{Name: "root", Number: 1, Kind: "message", TypeName: ".pmockrec.v1.Node"}),
+				mockProbe("pmockrepmsg", "mock-repeated-message", &spec.Field{Name: "items", Number: 1, Kind: "message", TypeName: ".pmockrepmsg.v1.Leaf", Card: "repeated"}),
+			}
+		},
+		rule: "plans = 1-4 interleaved Go-client calls against the generated server backed by NewMock<Svc>Server(), with the mock's rand.Intn results, crypto/rand outcome (incl. failure) and clock supplied by the plan; oracle = the mock answers a valid request without error, the server serialises it (JSON and protobuf), the client decodes an equal message, and every response field whose examples all parse to its type holds one of them; distinct_nontrivial counts distinct (world, rpc, codec, examples?, crypto failure?, outcome) tuples. Conformance to the OpenAPI response schema is not decided here",
+		technique: "deterministic simulation: seam on the generated mock's randomness/clock (plan-supplied), repeated and interleaved invocations through the simulated link",
+		stubs:     []string{"math/rand, crypto/rand, time.Now inside the generated mock (scratch copy) routed to the plan"},
 	}
 	props["C15"] = &propCfg{
 		id: "C15", level: "exploration", design: "DESIGN.md §4 C15", custom: c15Check, customReplay: c15Replay,
@@ -155,4 +216,26 @@ func lower(s string) string {
 		}
 	}
 	return string(b)
+}
+
+// mockProbe builds a minimal world for one response-field shape of the mock generator.
+func mockProbe(name, label string, fields ...*spec.Field) *spec.World {
+	pkg := name + ".v1"
+	resp := &spec.Message{Name: "ProbeResponse", Fields: fields}
+	for _, f := range fields {
+		if f.Oneof != "" {
+			resp.Oneofs = []*spec.Oneof{{Name: f.Oneof}}
+		}
+	}
+	f := &spec.File{Path: name + "/svc.proto", Package: pkg, GoPackage: "verifworld/" + name + "/pb;pb",
+		Enums: []*spec.Enum{{Name: "Color", Values: []*spec.EnumValue{{Name: "COLOR_UNSPECIFIED", Number: 0}, {Name: "COLOR_RED", Number: 1}}}},
+		Messages: []*spec.Message{
+			{Name: "ProbeRequest", Fields: []*spec.Field{{Name: "q", Number: 1, Kind: "string"}}},
+			resp,
+			{Name: "Leaf", Fields: []*spec.Field{{Name: "title", Number: 1, Kind: "string"}}},
+			{Name: "Node", Fields: []*spec.Field{{Name: "name", Number: 1, Kind: "string"}, {Name: "next", Number: 2, Kind: "message", TypeName: "." + pkg + ".Node"}}},
+		},
+		Services: []*spec.Service{{Name: "Probe", Methods: []*spec.Method{{Name: "Run", In: "." + pkg + ".ProbeRequest", Out: "." + pkg + ".ProbeResponse", HasConfig: true, Path: "/run", Verb: "POST"}}}},
+	}
+	return &spec.World{Name: name, Files: []*spec.File{f}, Mock: true, Probe: label, Features: []string{"mock_probe"}}
 }
